@@ -120,7 +120,7 @@ impl<'a> G<'a> {
             .collect()
     }
     fn item_sinks(&self) -> Vec<u8> {
-        let mut v = vec![ITEM_DROP, ITEM_DROP, ITEM_KEEP, ITEM_MOVE, ITEM_LAZY, ITEM_MUTATE, ITEM_INSPECT];
+        let mut v = vec![ITEM_DROP, ITEM_DROP, ITEM_KEEP, ITEM_MOVE, ITEM_MOVE_INSERT, ITEM_LAZY, ITEM_MUTATE, ITEM_INSPECT];
         if self.prof.allow_forget {
             v.push(ITEM_FORGET);
         }
